@@ -1,0 +1,23 @@
+//go:build verif
+
+package object
+
+import "sort"
+
+// VerifAttrNames returns the sorted names of everything a script can reach
+// through attribute access on this module. Only compiled with the "verif"
+// build tag; used by the runtime monitors in /verif to enumerate the object
+// graph reachable from a set of globals.
+func (m *Module) VerifAttrNames() []string {
+	names := make([]string, 0, len(m.builtins)+len(m.globalsIndex))
+	for name := range m.builtins {
+		names = append(names, name)
+	}
+	for name := range m.globalsIndex {
+		if _, dup := m.builtins[name]; !dup {
+			names = append(names, name)
+		}
+	}
+	sort.Strings(names)
+	return names
+}
